@@ -1,6 +1,7 @@
 import Oracle.Proto
 import InfluxQL.Model.Ring
 import InfluxQL.Model.Scanner
+import InfluxQL.Model.ScanOps
 namespace Oracle.Handlers.Ring
 open InfluxQL InfluxQL.Ring Oracle
 
@@ -26,6 +27,17 @@ def showTok (lx : Lexeme) : String :=
 /-- The zero slot of `bufScanner.buf`: token 0 (ILLEGAL), `Pos{0,0}`, empty literal. -/
 def zeroTok : Lexeme := { tok := .ILLEGAL, pos := ⟨0, 0⟩, lit := [] }
 
+/-- Scanner calls from the letters of the case line. -/
+def scanCalls (w : String) : List ScanOps.Call :=
+  w.toList.filterMap fun c =>
+    if c = 'S' then some .scan else if c = 'R' then some .scanRegex
+    else if c = 'P' then some .peekRune else if c = 'C' then some .peekComment else none
+
+def showOut : ScanOps.Out → String
+  | .tok lx => showTok lx
+  | .rune c => hexOfNat c.toNat
+  | .bool b => if b then "t" else "f"
+
 def handle (stream : String) (args : List String) : Option String :=
   match stream, args with
   | "ring.ops", [ops, a] =>
@@ -42,6 +54,14 @@ def handle (stream : String) (args : List String) : Option String :=
       match (Ring.init zeroTok (Cursor.ofRunes s)).run (tokenOps ops) with
       | none => some "depth"
       | some (outs, _) => some ("ok " ++ "|".intercalate (outs.map showTok))
+  | "ring.scan", [ops, a] =>
+    match decStr a with
+    | none => some "bad-arg"
+    | some s =>
+      -- the transcribed scanner functions run on the ring as written
+      match (ScanOps.opCalls (ScanOps.fuelFor s) (scanCalls ops)).runRing (readerInit s) with
+      | none => some "depth"
+      | some (outs, _) => some ("ok " ++ "|".intercalate (outs.map showOut))
   | _, _ => none
 
 end Oracle.Handlers.Ring
